@@ -199,6 +199,7 @@ MUTANTS["C17"] = [
     ("empty-old-not-completed", "annet/gen.py", "            old = merge_dicts(old, implicit.config(old, implicit_rules))", "            old = (old and merge_dicts(old, implicit.config(old, implicit_rules)))"),
     ("nested-defaults-dropped-again", "annet/implicit.py", '                implicit_config_tree[row] = config(odict(), rule["children"])', "                implicit_config_tree[row] = odict()"),
     ("default-added-when-row-present-as-prefix", "annet/implicit.py", "            if not any(matched_lines) and row not in config_tree:", "            if not any(l == row for l in matched_lines) and row not in config_tree:"),
+    ("nexus-vrf-change-drops-every-old-line", "annet/rulebook/nexus/iface.py", "                if is_ip_cmd(cmd) and not is_vpn_cmd(cmd):", "                if not is_vpn_cmd(cmd):"),
 ]
 
 MUTANTS["C19"] = [
